@@ -49,7 +49,8 @@ Proof.
 Qed.
 
 (* ---------- tags ---------- *)
-Inductive akind := KSl (i : nat) | KConds | KHooks.
+(* KTmp: scratch arrays an operation allocates and drops (WrapRoundTripFunc's local slice) *)
+Inductive akind := KSl (i : nat) | KConds | KHooks | KTmp.
 Definition atag := (oid * akind)%type.
 Definition mtag := (oid * nat)%type.
 
